@@ -26,3 +26,9 @@ CHECKS["C11"] = {
   "text": "Every encoder output is lexed by a reference model of LLVM's lexer and must be one token that is a name (never a numeric ID) with exactly the input bytes; all strings up to length 3/4 over a 21-byte alphabet of dangerous bytes are enumerated, longer ones drawn by rapid. At module level the string is placed at each of 24 positions through the API and through text, printed, re-parsed by llir (bytes must come back: a left inverse, hence injectivity) and read by llvm-as|llvm-dis, whose reading must equal its reading of my own fully escaped spelling of the same bytes.",
   "note": "Trusts the reference lexer model (h/ref/lex.go, written from LLLexer.cpp rules), LLVM 14, and the position templates in checks/c11. Domain: names are non-empty and NUL-free; all-digit type names are numbered types in the library's data model. Open finding KF-C11-type-name-quoted-digits.",
 }
+CHECKS["C19"] = {
+  "category": "fault_enumeration",
+  "technique": "fault injection by enumeration + property-based testing: an instrumented io.Writer failing at every byte offset (and rapid-drawn offsets on llvm-stress modules), checked against the io.WriterTo contract and String()",
+  "text": "For each repository test module every failure offset k in 0..len(String()) is enumerated (thorough; quick takes every 7th plus both ends), in two writer modes (keeps failing / would accept later writes), plus rapid-drawn (llvm-stress module, offset) pairs biased to line boundaries and the ends. The oracle is the contract itself: n equals the bytes the writer accepted, err is the writer's first error by identity, delivered bytes are String()[:k], no Write call follows the failure; a healthy writer receives exactly String().",
+  "note": "Modules come from the repository's testdata and llvm-stress (parsed by the library) - a module the parser cannot read is discarded and counted. Trusts String() as the definition of the expected bytes (the property defines WriteTo relative to it).",
+}
